@@ -30,10 +30,18 @@ type c13ctx struct {
 	plain string // path of the real binary
 }
 
+// staleOut: 400 KB that are not Go.
+var staleOut = bytes.Repeat([]byte("@@ stale output of an earlier run @@\n"), 10000)
+
 func (x *c13ctx) call(text []byte, argv []string, note string) {
 	c := x.c
 	x.n++
 	req := &hook.Req{Mode: "main", Text: text, Argv: argv, UseFile: x.n%3 == 1, UseOut: x.n%5 == 2}
+	if req.UseOut && x.n%10 == 2 {
+		// the -o target exists already and is LONGER than anything the tool writes (an earlier
+		// run with a bigger grammar): what is left behind must still be the complete new parser
+		req.PreOut = staleOut
+	}
 	r, err := c.W.Srv.Call(req)
 	c.Res.Evaluations++
 	viol := func(desc string) {
@@ -71,7 +79,7 @@ func (x *c13ctx) call(text []byte, argv []string, note string) {
 		viol("exit status 0 with a diagnostic on stderr: " + string(r.Stderr))
 	case r.Exit != 0 && len(bytes.TrimSpace(r.Stderr)) == 0:
 		viol(fmt.Sprintf("exit status %d without a diagnostic", r.Exit))
-	case r.Exit == 0 && noBuild && len(out) > 0:
+	case r.Exit == 0 && noBuild && len(out) > 0 && !bytes.Equal(out, req.PreOut):
 		viol("-x wrote a parser")
 	case r.Exit == 0 && !noBuild:
 		c.Res.Nontrivial++
